@@ -67,6 +67,9 @@ Qed.
 Lemma mul_nz a b : a <> 0 -> b <> 0 -> a * b <> 0.
 Proof. intros Ha Hb E. apply Hb. apply (mul_zero_iff a b Ha). exact E. Qed.
 
+Lemma three_nz' : 1 + (1 + 1) <> 0.
+Proof. intro E. apply three_nz. unfold three, two. rewrite <- E. ring. Qed.
+
 Section Two.
 Variables (c c' : hctx K) (lam : K).
 Hypothesis G : good c.
@@ -228,11 +231,20 @@ Lemma step_rescale o b ds :
   step F B halfpi gauss_id c' bk (rescale F lam o) b ds
   = let '(b', ds', out) := step F B halfpi gauss_id c bk o b ds in (b', ds', map (scale_outcome_impl F lam) out).
 Proof.
-  destruct o as [id ps ms|x k|p k|g k|V r ms|V r ms|phi k sel|ps k]; simpl.
+  destruct o as [id ps ms|x k dg|p k dg|g k dg|V r ms|V r ms|phi k sel|ps k]; simpl.
   - reflexivity.
   - rewrite xgate_r_scaled. reflexivity.
   - rewrite zgate_r_scaled. reflexivity.
-  - rewrite vgate_gamma_scaled. reflexivity.
+  - assert (E : fisz F (g / lam) = fisz F g).
+    { destruct (fisz F g) eqn:Eu.
+      - apply isz_spec. apply isz_spec in Eu. rewrite Eu. field. exact Hl.
+      - destruct (fisz F (g / lam)) eqn:Ev; [|reflexivity].
+        apply isz_spec in Ev. assert (g = 0) by (transitivity (lam * (g / lam)); [field; exact Hl | rewrite Ev; ring]).
+        apply isz_spec in H. congruence. }
+    rewrite E. destruct (fisz F g); [reflexivity|].
+    replace (if dg then - (g / lam) else g / lam) with ((if dg then - g else g) / lam)
+      by (destruct dg; [field; exact Hl | reflexivity]).
+    rewrite vgate_gamma_scaled. reflexivity.
   - rewrite gauss_V_scaled, gauss_r_scaled. reflexivity.
   - rewrite gauss_V_scaled, firstn_map, skipn_map.
     rewrite (disp_cmds_scaled (xgate_r F c) (xgate_r F c')) by (intro; apply xgate_r_scaled).
@@ -339,8 +351,8 @@ Qed.
 Lemma cubic_coeff_exact c g : good c ->
   cubic_coeff F (vgate_gamma F c g) (two F) 1 = cubic_coeff_doc F c g.
 Proof.
-  intro G. pose proof (good_hb_nz c G) as Hh. rewrite (good_hb c G) in *. destruct G as (H1 & H2 & H3).
-  unfold cubic_coeff, cubic_coeff_doc, vgate_gamma. rewrite (good_hb c (conj H1 (conj H2 H3))).
-  unfold three, two in *. field. repeat split; assumption.
+  intro G. unfold cubic_coeff, cubic_coeff_doc, vgate_gamma. rewrite (good_hb c G).
+  destruct G as (H1 & H2 & H3). unfold three, two in *. field.
+  pose proof three_nz'. repeat split; try assumption; repeat apply mul_nz; assumption.
 Qed.
 End P.
